@@ -114,8 +114,8 @@ def run(ctx):
 
     # ---- R4 ----------------------------------------------------------------------
     ctx.rule('C09.R4', 'who-may-read: the strategy and is_random options are read only by the modules that decide '
-             'sampling (table with reasons); in particular nothing under beartype/_check/code or '
-             'beartype/_data/check reads them')
+             'sampling (table with reasons; sibling modules of a listed module share its role); in particular nothing under '
+             'beartype/_check/code, beartype/_check/convert or beartype/_data/check reads them')
     n = 0
     for mn, m in sorted(ctx.repo.modules.items()):
         if '.strategy' not in m.src and '.is_random' not in m.src:
@@ -127,9 +127,14 @@ def run(ctx):
                 if not (base.endswith('conf') or base.endswith('.conf') or base == 'self'):
                     continue
                 n += 1
+                # the table names modules; a helper module split off inside the same package (a sibling of a listed module)
+                # has the same role — what must never read the options are the code generator and its templates
+                pkg = mn.rsplit('.', 1)[0]
+                forbidden = mn.startswith(('beartype._check.code', 'beartype._data.check', 'beartype._check.convert'))
+                ok_ = not forbidden and (mn in STRATEGY_READERS or any(k.rsplit('.', 1)[0] == pkg for k in STRATEGY_READERS))
                 ctx.ob('C09.R4', f'reader:{mn}:{node.attr}', m.where(node),
-                       f'{mn} may read conf.{node.attr}', mn in STRATEGY_READERS,
-                       'not among the modules that decide sampling')
+                       f'{mn} may read conf.{node.attr}', ok_,
+                       'the code generator must not depend on the strategy options' if forbidden else 'not among the modules (or their packages) that decide sampling')
     ctx.floor('C09.R4', n, 6, 'reads of conf.strategy / conf.is_random')
 
 
